@@ -172,6 +172,14 @@ def build(reg):
                      name='cell::apply_surface_tension_and_membrane_elasticity::<prologue>'))
     reg.add(Contract('cell::get_angle_gradient', PROP, post=post_angle_gradient, name_locals=1))
     lemmas(reg)
+    # the face cache the force routines read (FC(f): area = |cr|/2, unit normal = cr/|cr|, zero normal only for a face of zero area) is C12's
+    # contract of update_face_normal_and_area, re-checked here because every force of this property is computed from that cache
+    import C12
+    sub = __import__('spec').Registry(); C12.build(sub)
+    for c in sub.contracts:
+        if c.qname == 'cell::update_face_normal_and_area' and c.post is not None and not getattr(c, 'assumed', False):
+            c.prop = PROP; c.name = c.name + ' [as in C12: the cache the forces are computed from]'; reg.add(c)
+    for k, lc in sub.loops.items(): reg.loops.setdefault(k, lc)
     reg.add(Contract('cell::apply_internal_forces', PROP, post=post_force_stages, name='cell::apply_internal_forces::<which forces, on which cache>', use=[
         force_stage('cell::update_all_face_normals_and_areas', 'cache'), force_stage('cell::apply_pressure_on_surface', 'pressure'),
         force_stage('cell::apply_surface_tension_and_membrane_elasticity', 'tension'), force_stage('cell::apply_bending_forces', 'bending'),
